@@ -237,19 +237,19 @@ Definition sw2_pure (chk : bool) (b : bytes) : outcome (bolt_cmd * N) :=
   | [] => own_pure chk true b
   end.
 
-Lemma sw_res chk v : res (bolt_decode_sw chk v) = sw_pure chk (vb v).
-Proof. unfold bolt_decode_sw, sw_pure. destruct (vb v) as [|c r] eqn:E; [|destruct (c =? 2)]; rewrite <- E; apply own_decode_res. Qed.
-Lemma sw2_res chk v : res (boltv2_decode_sw chk v) = sw2_pure chk (vb v).
+Lemma sw_res chk v : res (bolt_decode_sw chk bolt_gate_first v) = sw_pure chk (vb v).
+Proof. unfold bolt_decode_sw, sw_pure. change bolt_gate_first with false. cbn [andb]. destruct (vb v) as [|c r] eqn:E; [|destruct (c =? 2)]; rewrite <- E; apply own_decode_res. Qed.
+Lemma sw2_res chk v : res (boltv2_decode_sw chk bolt_gate_first v) = sw2_pure chk (vb v).
 Proof.
-  unfold boltv2_decode_sw, sw2_pure. destruct (vb v) as [|c r] eqn:E.
+  unfold boltv2_decode_sw, sw2_pure. change (bolt_gate_first && (vlen v <? boltv2_LessLen)) with false. cbv iota. destruct (vb v) as [|c r] eqn:E.
   - rewrite <- E. apply own_decode_res.
   - destruct (c =? bolt_ProtocolCode); rewrite <- E; [apply sw_res|apply own_decode_res].
 Qed.
-Lemma sw_bounded chk v : bounded (vlen v) (bolt_decode_sw chk v).
-Proof. unfold bolt_decode_sw. destruct (vb v) as [|c r]; [|destruct (c =? 2)]; apply own_decode_bounded. Qed.
-Lemma sw2_bounded chk v : bounded (vlen v) (boltv2_decode_sw chk v).
+Lemma sw_bounded chk v : bounded (vlen v) (bolt_decode_sw chk bolt_gate_first v).
+Proof. unfold bolt_decode_sw. change bolt_gate_first with false. cbn [andb]. destruct (vb v) as [|c r]; [|destruct (c =? 2)]; apply own_decode_bounded. Qed.
+Lemma sw2_bounded chk v : bounded (vlen v) (boltv2_decode_sw chk bolt_gate_first v).
 Proof.
-  unfold boltv2_decode_sw. destruct (vb v) as [|c r]; [apply own_decode_bounded|].
+  unfold boltv2_decode_sw. change (bolt_gate_first && (vlen v <? boltv2_LessLen)) with false. cbv iota. destruct (vb v) as [|c r]; [apply own_decode_bounded|].
   destruct (c =? bolt_ProtocolCode); [apply sw_bounded|apply own_decode_bounded].
 Qed.
 
@@ -360,3 +360,12 @@ Proof. eapply to_presult_stable; [apply sw2_pure_ext|apply sw2_pure_ok|apply bol
 Theorem bolt_family_parse b x r : b = x :: r -> x = bolt_ProtocolCode \/ x = boltv2_ProtocolCode ->
   boltv2_parse b = bolt_parse b.
 Proof. intros H1 H2. rewrite bolt_parse_eq, boltv2_parse_eq. now rewrite (family_agree _ b x r H1 H2). Qed.
+
+(* with the length gate in front of the version switch (bolt_gate_first = true, not the code in the tree) the boltv2 entry
+   does not extract a complete 20-byte v1 response that the bolt entry extracts *)
+Lemma gate_first_breaks_family :
+  let hb := [1;0;0;0;1; 0;0;0;7; 1; 0;0; 0;0; 0;0; 0;0;0;0] in
+  res (boltv2_decode_sw true true (view_of hb)) = NeedMore /\
+  (exists c, res (bolt_decode_sw true true (view_of hb)) = Ok (c, 20)) /\
+  (exists c, res (boltv2_decode (view_of hb)) = Ok (c, 20)).
+Proof. vm_compute. split; [reflexivity|split; eexists; reflexivity]. Qed.
